@@ -20,24 +20,26 @@
      window in which the guard alone cannot serialize anything), (iv) releases the lock.
      `Disc(role, kind)` says how far the lock extends: "all" (held while calling downstream),
      "decide" (held for the decision only - amb) or "none".
-       Fixed = TRUE  : the discipline the property demands (every handler that may call downstream
-                       holds the one lock while it does).  TLC must prove NoOverlap and Grammar over
-                       all interleavings.
-       Fixed = FALSE : the discipline as the pinned code implements it.  TLC's verdict per family is
-                       a PREDICTION that is compared with what controlled schedules of the real code
-                       show (a disagreement is reported as model drift, never as a violation).     *)
+       disc = "intended"    : the discipline the property demands (every handler that may call downstream
+                              holds the one lock while it does).  TLC must prove NoOverlap and Grammar over
+                              all interleavings.
+       disc = "implemented" : the discipline as the pinned code implements it.  TLC's verdict per family is
+                              a PREDICTION that is compared with what controlled schedules of the real code
+                              show (a disagreement is reported as model drift, never as a violation).
+       disc = "before_fix"  : the discipline of the tree before this bundle's four fixes - negative control:
+                              TLC must find the violations (the invariants have teeth).                  *)
 EXTENDS Integers, Sequences, FiniteSets, TLC, Json
 
 CONSTANTS Threads,   \* source threads of the discipline model, e.g. {1, 2} (thread 1 has the special role)
           Obs,       \* downstream observer ids, 0 = the combinator's subscriber
           Families,  \* subset of {"merge", "merge_outer", "zip", "combine_latest", "with_latest_from", "amb", "window"}
-          FixedSet,  \* subset of BOOLEAN - TRUE: intended discipline, FALSE: as implemented
+          DiscSet,   \* subset of {"intended", "implemented", "before_fix"} - which lock discipline a behaviour runs
           MaxN       \* at most MaxN elements per source script
 
 Terminal == {"E", "C"}
 
 VARIABLES fam,      \* model: the combinator family of this behaviour (chosen in Init, then constant)
-          fixed,    \* model: which discipline this behaviour runs (chosen in Init, then constant)
+          disc,     \* model: which discipline this behaviour runs (chosen in Init, then constant)
           frames,   \* monitor: calls in progress, in order of entry: [th, o, k]
           hist,     \* monitor: o -> kinds entered so far
           script,   \* model: thread -> notifications its source will still deliver
@@ -49,8 +51,8 @@ VARIABLES fam,      \* model: the combinator family of this behaviour (chosen in
           wid       \* model (window): id of the current window's observer
 
 mon  == <<frames, hist>>
-mdl  == <<fam, fixed, script, pc, out, lock, stopped, choice, wid>>
-vars == <<fam, fixed, frames, hist, script, pc, out, lock, stopped, choice, wid>>
+mdl  == <<fam, disc, script, pc, out, lock, stopped, choice, wid>>
+vars == <<fam, disc, frames, hist, script, pc, out, lock, stopped, choice, wid>>
 
 (* ------------------------------ PART 1: the monitor ------------------------------ *)
 MonInit == frames = <<>> /\ hist = [o \in Obs |-> <<>>]
@@ -74,17 +76,22 @@ Role(i) == CASE fam \in {"merge_outer"} -> (IF i = 1 THEN "outer" ELSE "inner")
              [] fam = "window" -> (IF i = 1 THEN "source" ELSE "timer")
              [] OTHER -> "src"
 
-\* how far the lock extends in the handler of role r for an incoming notification of kind k, as implemented
-AsImplemented(r, k) ==
+\* how far the lock extends in the handler of role r for an incoming notification of kind k.
+\* "before_fix": the tree before the four `fix:` commits of this bundle (kept as a negative control: TLC must find the
+\* monitor violations that controlled schedules found in the real code then)
+BeforeFix(r, k) ==
     CASE fam = "merge" -> "all"                                     \* synchronized(source.lock) on all three
-      [] fam = "merge_outer" -> (IF r = "outer" THEN "none" ELSE "all")  \* outer handlers are passed bare
+      [] fam = "merge_outer" -> (IF r = "outer" THEN "none" ELSE "all")  \* outer handlers were passed bare
       [] fam = "zip" -> (IF k = "N" THEN "all" ELSE "none")            \* completed(i) and observer.on_error bare
       [] fam = "combine_latest" -> (IF k = "E" THEN "none" ELSE "all") \* observer.on_error bare
       [] fam = "with_latest_from" -> (IF k = "N" THEN "all" ELSE "none")
       [] fam = "amb" -> "decide"                                     \* the choice is locked, the call is not
       [] fam = "window" -> "all"
+\* the pinned code (after the fixes): every handler is wrapped in synchronized(lock); amb locks the choice only
+AsImplemented(r, k) == IF fam = "amb" THEN "decide" ELSE "all"
+\* what the property needs: whoever may call downstream holds the one lock while doing so (amb: only the winner ever calls)
 Intended(r, k) == IF fam = "amb" THEN "decide" ELSE "all"
-Disc(r, k) == IF fixed THEN Intended(r, k) ELSE AsImplemented(r, k)
+Disc(r, k) == CASE disc = "intended" -> Intended(r, k) [] disc = "implemented" -> AsImplemented(r, k) [] disc = "before_fix" -> BeforeFix(r, k)
 
 (* what a handler may call downstream (tags): sN sE sC = the subscriber; wN wE wC = the current window's
    observer; open = sN carrying a new window (the next window observer becomes current).
@@ -110,7 +117,7 @@ Scripts(i) == IF fam = "window" /\ Role(i) = "timer"
               THEN {[j \in 1..n |-> "T"] : n \in 1..MaxN}
               ELSE {[j \in 1..(n + 1) |-> IF j <= n THEN "N" ELSE t] : n \in 0..MaxN, t \in Terminal}
 
-MdlInit == /\ fam \in Families /\ fixed \in FixedSet
+MdlInit == /\ fam \in Families /\ disc \in DiscSet
            /\ script \in [Threads -> UNION {Scripts(i) : i \in Threads}]
            /\ \A i \in Threads : script[i] \in Scripts(i)
            /\ pc = [i \in Threads |-> "idle"] /\ out = [i \in Threads |-> <<>>]
@@ -123,18 +130,18 @@ TagKind(tag) == CASE tag \in {"sN", "wN", "open"} -> "N" [] tag \in {"sE", "wE"}
 
 Start(i) == /\ pc[i] = "idle" /\ script[i] # <<>>
             /\ pc' = [pc EXCEPT ![i] = IF Disc(Role(i), Head(script[i])) = "none" THEN "decide" ELSE "acq"]
-            /\ UNCHANGED <<fam, fixed, frames, hist, script, out, lock, stopped, choice, wid>>
+            /\ UNCHANGED <<fam, disc, frames, hist, script, out, lock, stopped, choice, wid>>
 
 Acquire(i) == /\ pc[i] = "acq" /\ lock = 0
               /\ lock' = i /\ pc' = [pc EXCEPT ![i] = "decide"]
-              /\ UNCHANGED <<fam, fixed, frames, hist, script, out, stopped, choice, wid>>
+              /\ UNCHANGED <<fam, disc, frames, hist, script, out, stopped, choice, wid>>
 
 Decide(i) == /\ pc[i] = "decide"
              /\ \E s \in Emits(i, Role(i), Head(script[i])) : out' = [out EXCEPT ![i] = s]
              /\ choice' = IF fam = "amb" /\ choice = 0 THEN i ELSE choice
              /\ lock' = IF Disc(Role(i), Head(script[i])) = "decide" THEN 0 ELSE lock
              /\ pc' = [pc EXCEPT ![i] = "emit"]
-             /\ UNCHANGED <<fam, fixed, frames, hist, script, stopped, wid>>
+             /\ UNCHANGED <<fam, disc, frames, hist, script, stopped, wid>>
 
 \* the auto-detach guard of the target observer: test-and-set of `stopped` is one step, the call is the next
 Guard(i) == /\ pc[i] = "emit" /\ out[i] # <<>>
@@ -143,25 +150,25 @@ Guard(i) == /\ pc[i] = "emit" /\ out[i] # <<>>
                THEN out' = [out EXCEPT ![i] = Tail(@)] /\ UNCHANGED <<pc, stopped>>            \* dropped
                ELSE /\ stopped' = [stopped EXCEPT ![o] = @ \/ k \in Terminal]
                     /\ pc' = [pc EXCEPT ![i] = "call"] /\ UNCHANGED out
-            /\ UNCHANGED <<fam, fixed, frames, hist, script, lock, choice, wid>>
+            /\ UNCHANGED <<fam, disc, frames, hist, script, lock, choice, wid>>
 
 DoEnter(i) == /\ pc[i] = "call"
               /\ Enter(i, TagObs(Head(out[i])), TagKind(Head(out[i])))
               /\ pc' = [pc EXCEPT ![i] = "in"]
-              /\ UNCHANGED <<fam, fixed, script, out, lock, stopped, choice, wid>>
+              /\ UNCHANGED <<fam, disc, script, out, lock, stopped, choice, wid>>
 
 DoExit(i) == /\ pc[i] = "in"
              /\ Exit(i, TagObs(Head(out[i])))
              /\ wid' = IF Head(out[i]) = "open" /\ wid + 1 \in Obs THEN wid + 1 ELSE wid
              /\ out' = [out EXCEPT ![i] = Tail(@)]
              /\ pc' = [pc EXCEPT ![i] = "emit"]
-             /\ UNCHANGED <<fam, fixed, script, lock, stopped, choice>>
+             /\ UNCHANGED <<fam, disc, script, lock, stopped, choice>>
 
 Finish(i) == /\ pc[i] = "emit" /\ out[i] = <<>>
              /\ lock' = IF lock = i THEN 0 ELSE lock
              /\ script' = [script EXCEPT ![i] = Tail(@)]
              /\ pc' = [pc EXCEPT ![i] = "idle"]
-             /\ UNCHANGED <<fam, fixed, frames, hist, out, stopped, choice, wid>>
+             /\ UNCHANGED <<fam, disc, frames, hist, out, stopped, choice, wid>>
 
 Done == \A i \in Threads : pc[i] = "idle" /\ script[i] = <<>>
 Terminated == Done /\ UNCHANGED vars     \* so that TLC's deadlock check means: the lock discipline never blocks for good
@@ -181,14 +188,15 @@ NeverContended == ~(\E i, j \in Threads : i # j /\ pc[i] = "in" /\ pc[j] = "acq"
 NeverTerminal  == \A o \in Obs : \A i \in DOMAIN hist[o] : hist[o][i] \notin Terminal
 (* ---- what the design run checks ---- *)
 \* the intended discipline satisfies the property on every interleaving
-DesignNoOverlap == fixed => NoOverlap
-DesignGrammar   == fixed => Grammar
-(* the as-implemented discipline: per family, is a monitor violation reachable?  Printed once per family and
-   kind of violation (TLC registers 9001..; single worker), never a TLC error.                              *)
+DesignNoOverlap == disc = "intended" => NoOverlap
+DesignGrammar   == disc = "intended" => Grammar
+(* the other disciplines: per family, is a monitor violation reachable?  Printed once per discipline, family and kind of
+   violation (TLC registers 9001..; single worker or deduplicated by the caller), never a TLC error.               *)
 FamIdx == CASE fam = "merge" -> 0 [] fam = "merge_outer" -> 1 [] fam = "zip" -> 2 [] fam = "combine_latest" -> 3
             [] fam = "with_latest_from" -> 4 [] fam = "amb" -> 5 [] fam = "window" -> 6
-ASSUME \A j \in 9001..9020 : TLCSet(j, 0)
-Once(reg, what) == TLCGet(reg) = 0 => (TLCSet(reg, 1) /\ PrintT(ToJson([predict |-> fam, violates |-> what])))
-Predict == /\ (~fixed /\ ~NoOverlap) => Once(9001 + 2 * FamIdx, "NoOverlap")
-           /\ (~fixed /\ ~Grammar)   => Once(9002 + 2 * FamIdx, "Grammar")
+DiscIdx == CASE disc = "implemented" -> 0 [] disc = "before_fix" -> 1 [] OTHER -> 2
+ASSUME \A j \in 9001..9060 : TLCSet(j, 0)
+Once(reg, what) == TLCGet(reg) = 0 => (TLCSet(reg, 1) /\ PrintT(ToJson([disc |-> disc, predict |-> fam, violates |-> what])))
+Predict == /\ (disc # "intended" /\ ~NoOverlap) => Once(9001 + 20 * DiscIdx + 2 * FamIdx, "NoOverlap")
+           /\ (disc # "intended" /\ ~Grammar)   => Once(9002 + 20 * DiscIdx + 2 * FamIdx, "Grammar")
 ================================================================================
